@@ -318,3 +318,65 @@ Fixpoint nl_format_loop (fuel : nat) (fmt : bytes) (args : list farg) : res byte
   end.
 Definition nl_format (fmt : bytes) (args : list farg) : res bytes := nl_format_loop (S (length fmt)) fmt args.
 End Fmt.
+
+(* ------------------------------------------------------------------ the size bound of every snprintf call *)
+(* C99 snprintf(buf, n, ...) writes at most n-1 bytes and returns the length the full output would have; formatarg
+   commits that returned length.  [nl_site_bound]: the n of the call site that formats the item, from the scraped
+   facts of Gen.v (None: the plain "%s" copy, which calls nothing): MAX_ITEM for the numeric, character and pointer
+   sites; for the modified %s the size of the buffer prepared for it, max(#s + 1, MAX_ITEM). *)
+Definition nl_site_bound (conv : Z) (form : bytes) (a : farg) : option Z :=
+  if conv =? 115 then
+    if Nat.eqb (length form) 2 then None
+    else
+      let s := match a with AStr s => s | AInt v => decimal_of v end in
+      Some (if FMT_S_SITE_BOUND_IS_BUF_SIZE then Z.max (slen s + 1) NL_MAX_ITEM else NL_MAX_ITEM)
+  else Some (if FMT_NUM_SITES_BOUND_IS_MAX_ITEM then NL_MAX_ITEM else 0).
+
+Section FmtBounded.
+Variable cfloat : bytes -> Z -> bytes.
+
+(* the item with the bound taken into account: an output that does not fit is cut by snprintf; for the numeric sites
+   formatarg then stops ('formatted item too long', 38f86f9); for %s it commits bytes that were never written *)
+Definition nl_item_b (rest : bytes) (a : farg) : res (bytes * bytes) :=
+  match nl_scanformat rest with
+  | Trap => Trap | Unsafe => Unsafe
+  | Val (form, conv, _) =>
+      match nl_item cfloat rest a with
+      | Val (b, r') =>
+          match nl_site_bound conv form a with
+          | None => Val (b, r')
+          | Some n => if slen b <? n then Val (b, r') else if conv =? 115 then Unsafe else Trap
+          end
+      | x => x
+      end
+  end.
+
+Fixpoint nl_format_loop_b (fuel : nat) (fmt : bytes) (args : list farg) : res bytes :=
+  match fuel with
+  | O => Trap
+  | S k =>
+      match fmt with
+      | [] => Val []
+      | c :: r =>
+          if negb (c =? 37) then
+            match nl_format_loop_b k r args with Val o => Val (c :: o) | x => x end
+          else if hd0 r =? 37 then
+            match nl_format_loop_b k (tl r) args with Val o => Val (37 :: o) | x => x end
+          else
+            match nl_scanformat r with
+            | Trap => Trap | Unsafe => Unsafe
+            | Val _ =>
+                match args with
+                | [] => Trap
+                | a :: args' =>
+                    match nl_item_b r a with
+                    | Trap => Trap | Unsafe => Unsafe
+                    | Val (out, r') =>
+                        match nl_format_loop_b k r' args' with Val o => Val (out ++ o) | x => x end
+                    end
+                end
+            end
+      end
+  end.
+Definition nl_format_b (fmt : bytes) (args : list farg) : res bytes := nl_format_loop_b (S (length fmt)) fmt args.
+End FmtBounded.
